@@ -15,6 +15,7 @@ EXTENDS Elements, Titles
 KeepFalsyDefault      == TRUE   \* _parse_composition: `default or element.default`
 SingleTypeKeepsDefault == TRUE  \* _parse_multi_typed, one-element type list
 NothingDefaultWrapped == TRUE   \* _parse_composition: AllOf(Nothing(), default=d)
+SyntheticFollowsAdditional == TRUE  \* _parse_object: undeclared required names get the additional element
 
 CompKws == {"anyOf", "oneOf", "allOf", "not"}
 
@@ -102,12 +103,20 @@ ParseObject(S, P, t) ==
   LET props0 == IF "properties" \in DOMAIN P THEN P.properties ELSE <<>>
       req == IF Has(S, "required") THEN S.required ELSE <<>>
       attrs0 == {props0[i].attr : i \in 1..Len(props0)}
+      (* _undeclared_property_element: a required name without a property is still an additional
+         property unless a pattern matches it *)
+      pats == IF "patternProperties" \in DOMAIN P THEN P.patternProperties ELSE <<>>
+      Undeclared(key) ==
+        IF ~SyntheticFollowsAdditional \/ (\E j \in 1..Len(pats) : Match(pats[j][1], key)) THEN ElementE
+        ELSE IF "additionalProperties" \in DOMAIN P THEN P.additionalProperties
+        ELSE IF "additionalPropertiesB" \in DOMAIN P /\ ~P.additionalPropertiesB THEN NothingE
+        ELSE ElementE
       RECURSIVE synth(_, _)
       synth(i, seen) ==
         IF i > Len(req) THEN <<>>
         ELSE LET a == AttrName(req[i]) IN
              IF a \in seen THEN synth(i + 1, seen)
-             ELSE << [attr |-> a, source |-> req[i], required |-> TRUE, elem |-> ElementE] >>
+             ELSE << [attr |-> a, source |-> req[i], required |-> TRUE, elem |-> Undeclared(req[i])] >>
                   \o synth(i + 1, seen \cup {a})
       kw == Restrict(P, ClassKws("Object")) @@ [properties |-> props0 \o synth(1, attrs0)]
   IN MkObj(TitleFormat(IF Has(S, "title") THEN S.title ELSE t),
